@@ -166,7 +166,7 @@ struct RunResult {
 
 /// runs the thread programs under the scheduler following `prefix` (indices into the candidate lists),
 /// then `default` (None = first candidate, Some(rng) = random)
-fn run_once(ctl: &Arc<Ctl>, programs: &[Vec<String>], prefix: &[usize], rng: &mut Option<Rng>) -> RunResult {
+fn run_once(ctl: &Arc<Ctl>, programs: &[Vec<String>], prefix: &[usize], rng: &mut Option<Rng>, by_tid: Option<&[usize]>) -> RunResult {
     let n = programs.len();
     {
         let mut st = ctl.st.lock().unwrap();
@@ -247,7 +247,13 @@ fn run_once(ctl: &Arc<Ctl>, programs: &[Vec<String>], prefix: &[usize], rng: &mu
             st.events.extend(waits);
             break;
         }
-        let idx = if choices.len() < prefix.len() {
+        let idx = if let Some(tids) = by_tid {
+            // replay of a recorded schedule (thread ids)
+            match tids.get(choices.len()).and_then(|t| cands.iter().position(|c| c == t)) {
+                Some(i) => i,
+                None => 0,
+            }
+        } else if choices.len() < prefix.len() {
             prefix[choices.len()].min(cands.len() - 1)
         } else {
             match rng {
@@ -388,8 +394,53 @@ fn main() {
     });
     cachelito_core::verif::install_hooks(Some(Arc::new(SchedHooks(ctl.clone()))));
     let mode = args.get(1).map(|s| s.as_str()).unwrap_or("");
+    if mode == "replay" {
+        // replay file: the `P|…` line of the program and the `X|…sched=…` line of the run
+        let text = std::fs::read_to_string(&args[2]).expect("replay file");
+        let mut fns: Vec<md::Spec> = Vec::new();
+        let mut progs: Vec<Vec<String>> = Vec::new();
+        let mut tids: Vec<usize> = Vec::new();
+        for line in text.lines() {
+            if let Some(rest) = line.strip_prefix("P|") {
+                let (fl, pt) = rest.split_once('|').unwrap();
+                fns = fl.split(',').map(|i| specs[i.parse::<usize>().unwrap()].clone()).collect();
+                progs = pt.split("||").map(|p| p.split(';').map(|s| s.to_string()).collect()).collect();
+            } else if line.starts_with("X|") {
+                if let Some(i) = line.find("sched=") {
+                    let sc = line[i + 6..].split('|').next().unwrap();
+                    tids = sc.split(',').filter(|s| !s.is_empty()).map(|s| s.parse().unwrap()).collect();
+                }
+            }
+        }
+        for s in corpus::SPECS.iter() {
+            println!("{s}");
+        }
+        for sp in &fns {
+            md::rt::NEXT_TL.with(|n| n.set(Some(rt::Next { n: 1, ok: true, len: 4, ci: true, io: false })));
+            LEARN.with(|l| l.set(Some(sp.idx)));
+            let _ = corpus::CALLS[sp.idx](0);
+            let _ = corpus::CALLS[sp.idx](1);
+            LEARN.with(|l| l.set(None));
+        }
+        md::rt::NEXT_TL.with(|n| n.set(None));
+        reset_all(&fns);
+        let ptxt: Vec<String> = progs.iter().map(|p| p.join(";")).collect();
+        let ftxt: Vec<String> = fns.iter().map(|f| f.idx.to_string()).collect();
+        println!("P|{}|{}", ftxt.join(","), ptxt.join("||"));
+        let mut none: Option<Rng> = None;
+        let r = run_once(&ctl, &progs, &[], &mut none, Some(&tids));
+        let sched: Vec<String> = r.sched.iter().map(|t| t.to_string()).collect();
+        println!("X|run=1|sched={}|result={}", sched.join(","), r.result);
+        println!("V|{}", r.events.join(" "));
+        if r.result == "ok" {
+            println!("Q|{}", quiescent(&fns));
+        }
+        use std::io::Write;
+        std::io::stdout().flush().unwrap();
+        std::process::exit(0);
+    }
     if mode != "explore" {
-        eprintln!("usage: sched explore <seed> <programs> <max_runs>");
+        eprintln!("usage: sched explore <seed> <programs> <max_runs> | sched replay <file>");
         std::process::exit(2);
     }
     let seed: u64 = args[2].parse().unwrap();
@@ -437,7 +488,7 @@ fn main() {
                 prefix.clear();
             }
             reset_all(&fns);
-            let r = run_once(&ctl, &progs, &prefix, &mut rrng);
+            let r = run_once(&ctl, &progs, &prefix, &mut rrng, None);
             runs += 1;
             let sched: Vec<String> = r.sched.iter().map(|t| t.to_string()).collect();
             println!("X|run={}|sched={}|result={}", runs, sched.join(","), r.result);
